@@ -40,13 +40,17 @@ func (t *TaskExecutor[T]) ExecuteAt(identifier T, callback func(), executionTime
 		queuedElement.Cancel()
 	}
 
-	scheduledTask := t.Executor.ExecuteAt(func() {
+	var scheduledTask *ScheduledTask
+	scheduledTask = t.Executor.ExecuteAt(func() {
 		callback()
 
 		t.queuedElementsMutex.Lock()
 		defer t.queuedElementsMutex.Unlock()
 
-		t.queuedElements.Delete(identifier)
+		// only remove the own entry: the identifier might have been scheduled again in the meantime (e.g. by the callback)
+		if queuedElement, queuedElementExists := t.queuedElements.Get(identifier); queuedElementExists && queuedElement == scheduledTask {
+			t.queuedElements.Delete(identifier)
+		}
 	}, executionTime)
 
 	if scheduledTask != nil {
